@@ -610,6 +610,12 @@ def gen_filter_params(rng, model_airports, shipped):
 
     if r < 0.3:
         p[fam] = box() if fam == 'bounding_box' else pick(vals[fam])
+    elif r < 0.38:
+        # "flights that stay inside one region": the same value on both ends
+        f2 = rng.choice(['bounding_box', 'bounding_box', 'country', 'continent', 'airport'])
+        v = box() if f2 == 'bounding_box' else pick(vals[f2])
+        p['origin_' + f2] = v
+        p['destination_' + f2] = list(v) if isinstance(v, list) else v
     elif r < 0.75:
         for side in ('origin_', 'destination_'):
             if rng.random() < 0.65:
